@@ -109,6 +109,15 @@ func (s *m3State) apply(op m3Op) {
 		default:
 			c.recv = op.call
 		}
+	case "expire":
+		// the receive deadline of this context has passed: a Recv still
+		// waiting fails with the timeout error and its request is abandoned
+		c := &s.ctxs[op.ctx]
+		if c.recv >= 0 {
+			s.outcomes[c.recv] = "err:" + mangos.ErrRecvTimeout.Error()
+			c.recv = -1
+			c.cur, c.hasAnswer, c.answer = -1, false, ""
+		}
 	case "close":
 		c := &s.ctxs[op.ctx]
 		c.closed = true
@@ -160,6 +169,26 @@ func c03Run(w *W) {
 	for i := 0; i < nctx+nlate; i++ {
 		states[0].ctxs = append(states[0].ctxs, m3Ctx{cur: -1, recv: -1})
 	}
+	// in half of the runs some contexts have a receive deadline (10 s, far
+	// beyond the pauses between batches); an explicit step lets it pass for
+	// every Recv waiting at that moment. A request whose Recv timed out is
+	// abandoned like a cancelled one: its late reply is never delivered.
+	const c03Deadline = 10 * time.Second
+	hasDeadline := map[int]bool{}
+	withDeadlines := w.Choose(simrt.SShape, 2) == 0
+	setDeadline := func(ci int) {
+		if !withDeadlines || b.ctxs[ci].c == nil || w.Choose(simrt.SShape, 2) != 0 {
+			return
+		}
+		if err := b.ctxs[ci].c.SetOption(mangos.OptionRecvDeadline, c03Deadline); err != nil {
+			w.Failf("HARNESS/deadline", "%v", err)
+			return
+		}
+		hasDeadline[ci] = true
+	}
+	for ci := range b.ctxs {
+		setDeadline(ci)
+	}
 	var recvCalls []*Call
 	var recvDesc []string
 	ids := map[int][]uint32{} // ctx -> ids of its requests, oldest first
@@ -183,6 +212,16 @@ func c03Run(w *W) {
 		var sends []pendingSend
 		usedCtxSend := map[int]bool{}
 		usedCtxClose := map[int]bool{}
+		if len(hasDeadline) > 0 && bi > 0 && w.Choose(simrt.SProg, 4) == 0 {
+			// the deadline step: nothing else happens in this batch
+			k = 0
+			w.Sleep(c03Deadline + time.Second)
+			w.Op("%v pass: receive deadlines of contexts %v expire", c03Deadline+time.Second, sortedKeys(hasDeadline))
+			for _, ci := range sortedKeys(hasDeadline) {
+				ops = append(ops, m3Op{kind: "expire", ctx: ci, desc: fmt.Sprintf("ctx%d receive deadline passes", ci)})
+			}
+			w.Probe("receive-deadline-step")
+		}
 		for oi := 0; oi < k; oi++ {
 			kind := w.Choose(simrt.SProg, 10)
 			a := w.Choose(simrt.SProg, 64)
@@ -414,6 +453,9 @@ func c03Run(w *W) {
 			if v == "err:"+mangos.ErrProtoState.Error() {
 				w.Probe("recv-protostate")
 			}
+			if v == "err:"+mangos.ErrRecvTimeout.Error() {
+				w.Probe("recv-timed-out")
+			}
 		}
 		if w.Choose(simrt.SProg, 4) == 0 {
 			w.Sleep(time.Duration(1+w.Choose(simrt.SProg, 50)) * time.Millisecond)
@@ -426,6 +468,7 @@ func c03Run(w *W) {
 				return
 			}
 			b.ctxs = append(b.ctxs, &reqCtx{idx: live, c: c, s: b.s, R: time.Hour})
+			setDeadline(live)
 			w.Op("ctx%d opened", live)
 			if w.Choose(simrt.SProg, 2) == 0 {
 				forceRecv = live
@@ -438,4 +481,13 @@ func c03Run(w *W) {
 
 func init() {
 	register(&Scenario{Name: "req-replies", Prop: "C03", Horizon: 30 * time.Minute, Weight: 40, Run: c03Run})
+}
+
+func sortedKeys(m map[int]bool) []int {
+	ks := make([]int, 0, len(m))
+	for k := range m {
+		ks = append(ks, k)
+	}
+	sort.Ints(ks)
+	return ks
 }
